@@ -316,6 +316,23 @@ def native_target_dir():
     return d
 
 
+class native_lock:
+    """checks may run concurrently; the shared dependency cache under .cache/native-target is used by
+    one native build/run at a time (cargo's own lock does not cover the test binary's run)"""
+
+    def __enter__(self):
+        import fcntl
+        os.makedirs(CACHE, exist_ok=True)
+        self.fh = open(os.path.join(CACHE, "native.lock"), "w")
+        fcntl.flock(self.fh, fcntl.LOCK_EX)
+        return self
+
+    def __exit__(self, *a):
+        import fcntl
+        fcntl.flock(self.fh, fcntl.LOCK_UN)
+        self.fh.close()
+
+
 def run_native_test(scratch, test_filter, env=None, timeout_s=1200, release=False):
     """cargo test --lib <filter> in a 'native' scratch; returns (rc, output)."""
     cmd = ["cargo", "test", "--offline", "--lib"]
@@ -324,12 +341,13 @@ def run_native_test(scratch, test_filter, env=None, timeout_s=1200, release=Fals
     cmd += [test_filter, "--", "--nocapture", "--test-threads", "1"]
     e = env_offline(env or {})
     e["CARGO_TARGET_DIR"] = native_target_dir()
-    try:
-        p = subprocess.run(cmd, cwd=scratch.dir, env=e, stdout=subprocess.PIPE,
-                           stderr=subprocess.STDOUT, text=True, timeout=timeout_s)
-        return p.returncode, p.stdout
-    except subprocess.TimeoutExpired as ex:
-        return 124, "timeout"
+    with native_lock():
+        try:
+            p = subprocess.run(cmd, cwd=scratch.dir, env=e, stdout=subprocess.PIPE,
+                               stderr=subprocess.STDOUT, text=True, timeout=timeout_s)
+            return p.returncode, p.stdout
+        except subprocess.TimeoutExpired as ex:
+            return 124, "timeout"
 
 
 def test_outcome(out, name):
